@@ -104,3 +104,18 @@ from_rng_default!(rc_from_rng_default_8, rc_try_from_rng_default_8, rand_xoshiro
 from_rng_default!(rc_from_rng_default_16, rc_try_from_rng_default_16, rand_xoshiro::Xoroshiro128Plus, 16, crate::id);
 from_rng_default!(rc_from_rng_default_32, rc_try_from_rng_default_32, rand_xoshiro::Xoshiro256PlusPlus, 32, crate::id);
 from_rng_default!(rc_from_rng_default_64, rc_try_from_rng_default_64, rand_xoshiro::Xoshiro512Plus, 64, rand_xoshiro::Seed512);
+
+// The same two obligations for every other generator that relies on the defaulted from_rng / try_from_rng (the four above cover
+// one type per seed length; these make the claim independent of "nobody overrides the default", which the function census of the
+// Verus units guards as well).
+from_rng_default!(rc_from_rng_splitmix64, rc_try_from_rng_splitmix64, rand_xoshiro::SplitMix64, 8, crate::id);
+from_rng_default!(rc_from_rng_xoroshiro64starstar, rc_try_from_rng_xoroshiro64starstar, rand_xoshiro::Xoroshiro64StarStar, 8, crate::id);
+from_rng_default!(rc_from_rng_xoroshiro128plusplus, rc_try_from_rng_xoroshiro128plusplus, rand_xoshiro::Xoroshiro128PlusPlus, 16, crate::id);
+from_rng_default!(rc_from_rng_xoroshiro128starstar, rc_try_from_rng_xoroshiro128starstar, rand_xoshiro::Xoroshiro128StarStar, 16, crate::id);
+from_rng_default!(rc_from_rng_xoshiro128plus, rc_try_from_rng_xoshiro128plus, rand_xoshiro::Xoshiro128Plus, 16, crate::id);
+from_rng_default!(rc_from_rng_xoshiro128plusplus, rc_try_from_rng_xoshiro128plusplus, rand_xoshiro::Xoshiro128PlusPlus, 16, crate::id);
+from_rng_default!(rc_from_rng_xoshiro128starstar, rc_try_from_rng_xoshiro128starstar, rand_xoshiro::Xoshiro128StarStar, 16, crate::id);
+from_rng_default!(rc_from_rng_xoshiro256plus, rc_try_from_rng_xoshiro256plus, rand_xoshiro::Xoshiro256Plus, 32, crate::id);
+from_rng_default!(rc_from_rng_xoshiro256starstar, rc_try_from_rng_xoshiro256starstar, rand_xoshiro::Xoshiro256StarStar, 32, crate::id);
+from_rng_default!(rc_from_rng_xoshiro512plusplus, rc_try_from_rng_xoshiro512plusplus, rand_xoshiro::Xoshiro512PlusPlus, 64, rand_xoshiro::Seed512);
+from_rng_default!(rc_from_rng_xoshiro512starstar, rc_try_from_rng_xoshiro512starstar, rand_xoshiro::Xoshiro512StarStar, 64, rand_xoshiro::Seed512);
